@@ -28,8 +28,10 @@ PROP = dict(
          "bufSpec) is evaluated on the implementation's output. non-trivial = the source has a watermark and a non-zero event time",
     exhaustive=dict(quick=False, thorough=False),
     assumptions=[
-        "THIS CHECK COVERS THE SINGLE-INPUT NODES AND THE EVENT-TIME BUFFER ONLY: the stream-join / outer-join part of C18 "
-        "(min(left,right) watermark, phases) is built and checked under C19, the table-valued functions under C20/C21",
+        "theorems cover the single-input nodes and the event-time buffer; for the stream / outer join the model and its "
+        "schedule theorems are C19's (consistent_at_wm), and this check runs a sample of C19's (scripts, interleaving) lines "
+        "through the real join nodes and judges monotone watermarks / no late records on the emitted sequence (oracle only, "
+        "no separate theorem); table-valued functions: C20/C21",
         "event times lie in the Int64 nanosecond range; watermarks stay below WatermarkMaxValue for CustomTriggerGroupBy",
         "time.Time comparisons (Before/After) are comparisons of the instant",
     ],
